@@ -18,6 +18,9 @@ CLAIMED = {
  "C05": ("must-precede / must-follow ordering on SSA CFGs, guard-dominance, fsync must-pass-through over the resolved call chain, single-batch writer discipline, publish-last ordering over the VTA call tree (writer order vs the recovery reader's dereference chain)",
          "Decides the write-ahead, fsync-before-act, save→end-marker→apply and atomic-batch shapes on every path, the catch-up replay guards, and whether every record recovery dereferences from the head height is written before the head marker (flags the consensus-state record as an open finding). Does not decide post-crash store consistency or double-sign freedom over crash points.",
          "DESIGN.md §4 C05"),
+ "C06": ("effect/determinism lint over the call tree of block execution (VTA call graph, ~960 functions): map-iteration loops classified by their order-sensitive sinks (accumulating appends without a later sort, hash/buffer/stream writes, log records, sends) against a frozen reason table; forward def-use tracking of wall-clock/random/environment values to metrics/log/tracer sinks; goroutine-start inventory; ordering and operand rules for sequential transaction application; sort-before-scan and total-order comparator checks for validator updates; who-may-read of the HTTP-fetched blacklist",
+         "Decides structural necessary conditions of deterministic execution: no map iteration order, clock, random or environment value reachable from CommitAndValidateBlockTxs/updateState can reach results (only metrics, logs, tracer callbacks, GC timing), goroutines on the path are joined or result-neutral (tabled), transactions are applied one by one in block order with their index and failed ones reverted, block info is built from receipts in that order, validator changes are copied and sorted before use and the resulting set sorted by a total order, and the application's validator list reaches consensus only through that path. Does not decide result equality across cache/snapshot/prefetcher configurations and runs, the staking contract's bytecode, or data races.",
+         "DESIGN.md §4 C06"),
  "C07": ("ownership (copy-on-write) classification of every store into a trie node, ordering copy-then-fresh-flags, guard-dominance of the node constructions of insert/delete (shape rules), sibling agreement of node encoder/decoder/hasher/stack trie and compact-key tables, value-identity checks of proof construction and verification",
          "Decides structural necessary conditions of a canonical authenticated map: no shared node or key is modified in place, every node created or copied by insert/delete is dirty without a cached hash, unchanged subtrees are returned as they were, delete never leaves a short node above a short node or a one-child branch, empty values delete, the root changes only after success, the 17/2-item codec with compact keys and the 32-byte embedding rule agree across encoder, decoder, hasher and stack trie, Prove stores every element under the hash of its encoding and VerifyProof follows exactly the wanted hash. Does not decide get-after-update, order independence, equality with a reference or the stack trie, reopen equality, or rejection of tampered proofs by VerifyProof itself (it trusts a hash-keyed proof store).",
          "DESIGN.md §4 C07"),
